@@ -335,6 +335,10 @@ func (t *largeHuffCodeTable) encodeLongCodes(ctx *dynamicHeaderReader, codeListL
 			}
 		}
 
+		for x := longCodeLookupLength; x < longCodeLookupLength+(1<<(maxLen-litLenLookupBits)); x++ {
+			t.longCodeLookup[x] = 0
+		}
+
 		for j := 0; j < int(tempCodeLength); j++ {
 			sym1Index := uint32(tempCodeList[j])
 			sym1 := indexToSym(sym1Index)
